@@ -14,8 +14,10 @@ M3_Trans == << << [ns |-> 0, sends |-> <<>>], [ns |-> 0, sends |-> <<Snd(1, 1, 1
                   [ns |-> 0, sends |-> <<Snd(1, 1, 5), Snd(2, 3, 3)>>], [ns |-> 1, sends |-> <<>>] >>,
                << [ns |-> 1, sends |-> <<>>], [ns |-> 1, sends |-> <<>>], [ns |-> 1, sends |-> <<>>],
                   [ns |-> 1, sends |-> <<>>], [ns |-> 1, sends |-> <<>>] >> >>
-\* reachability probe (expected to be violated): a straggler is matched against a history that holds an entry cancelled in place
-Probe_NoStragglerOverCancelledEntry ==
-  \A r \in ThreadsC : pc[r] = "rbbegin" /\ loc[r].after = "exec" =>
-     ~\E i \in 1..Len(hist[loc[r].lp]) : hist[loc[r].lp][i].k = "e" /\ TW!HasAnti(msg[hist[loc[r].lp][i].m].flags)
+\* reachability probe (expected to be violated): an event is about to be executed right after a history entry of its own timestamp that the
+\* sender cancelled in place (msg_is_before compares the flags first, so it is not treated as a straggler)
+Probe_NoExecOverCancelledEntry ==
+  \A r \in ThreadsC : pc[r] = "exec" =>
+     LET p == loc[r].lp IN ~(hist[p] # <<>> /\ LastE(p).k = "e" /\ TW!HasAnti(msg[LastE(p).m].flags) /\ LastE(p).t = msg[loc[r].m].t
+                            /\ Before(EvOf(loc[r].m), [t |-> LastE(p).t, ty |-> LastE(p).ty, pid |-> LastE(p).pid]))
 =============================================================================
